@@ -22,7 +22,8 @@ CONSTANTS
   EncodeAtEnqueue = FALSE
   BugZeroCostHeld = FALSE
   SplitOnlyAtEnqueue = FALSE
-INVARIANTS WithinGrant WithinMaxFrame NoEligibleQueued LedgerAgrees PrefixFidelity HpackInOrder
+  DropOnClose = FALSE
+INVARIANTS WithinGrant WithinMaxFrame NoEligibleQueued LedgerAgrees PrefixFidelity Conserved HpackInOrder
 CONSTRAINT HWM
 POSTCONDITION Accepted
 CHECK_DEADLOCK FALSE
